@@ -51,6 +51,9 @@ def menu(kind):
         m[10] = ([("thr", 5.0)], 0, "all", None)
         m[11] = ([("ens", 1)], 1, "no", 0)
         m[13] = ([("q", 0.9)], 1, "all", None)
+        m[9] = ([("ens", 0)], 0, "all", None)          # differs from m[4] only in the member number
+        m[14] = ([("obs",), ("ens", 1)], 1, "leadtime", 0)
+        m[15] = ([("obs",), ("ens", 0)], 1, "leadtime", 0)
     if kind == "pit":
         m[11] = (["pit"], 0, "all", None)
         m[12] = (["obs", "pit"], 1, "no", 0)
